@@ -316,13 +316,14 @@ deriving DecidableEq, Repr
 
 /-- the scan over the sent entries: `none` = a stored entry could not be read (return, no success);
     otherwise the optional conflict index to truncate from and the entries to append -/
-def scanEntries (log : List Entry) (lastLogIdx : Nat) : List Entry → Option (Option Nat × List Entry)
+def scanEntries (log : List Entry) (lastLogIdx snapIdx : Nat) : List Entry → Option (Option Nat × List Entry)
   | [] => some (none, [])
   | e :: rest =>
-    if e.index > lastLogIdx then some (none, e :: rest)
+    if e.index ≤ snapIdx then scanEntries log lastLogIdx snapIdx rest      -- covered by the snapshot
+    else if e.index > lastLogIdx then some (none, e :: rest)
     else match getLog log e.index with
       | none => none
-      | some se => if e.term ≠ se.term then some (some e.index, e :: rest) else scanEntries log lastLogIdx rest
+      | some se => if e.term ≠ se.term then some (some e.index, e :: rest) else scanEntries log lastLogIdx snapIdx rest
 
 def lastOf (es : List Entry) (dflt : Entry) : Entry := es.getLastD dflt
 
@@ -343,6 +344,7 @@ def aePlan (cf : Cfg) (d : Durable) (v : Vol) (a : AEReq) : Plan :=
         let le := lastEntry v2
         if a.prevIdx = le.1 then some (a.prevTerm = le.2)
         else if a.prevIdx = v2.snapIdx then some (a.prevTerm = v2.snapTerm)   -- the snapshot boundary
+        else if a.prevIdx < v2.snapIdx then some true                         -- covered by the snapshot
         else match getLog d.log a.prevIdx with
           | none => none
           | some pe => some (a.prevTerm = pe.term)
@@ -368,7 +370,7 @@ def aePlan (cf : Cfg) (d : Durable) (v : Vol) (a : AEReq) : Plan :=
         else ⟨steps, mkRes (.append t1 (lastIndex v) true false) v3⟩
       if a.entries = [] then finish pre d.log v2
       else
-        match scanEntries d.log v2.lastLogIdx a.entries with
+        match scanEntries d.log v2.lastLogIdx v2.snapIdx a.entries with
         | none => ⟨pre, fail v2 false t1⟩
         | some (conflict, newEntries) =>
           let (steps1, dlog1, v3, reloadOk) : List (Write × Res) × List Entry × Vol × Bool :=
